@@ -11,8 +11,8 @@ package vsched
 
 import (
 	"fmt"
-	"math"
 	"hash/fnv"
+	"math"
 	"os"
 	"reflect"
 	"runtime"
@@ -293,9 +293,27 @@ func (s *Sched) body(t *Thread, f func()) {
 	defer func() {
 		if r := recover(); r != nil {
 			if s.Failure == "" {
-				buf := make([]byte, 4096)
+				// the message must be identical on replay: function names of the frames only,
+				// no goroutine numbers, addresses or argument values
+				buf := make([]byte, 8192)
 				buf = buf[:runtime.Stack(buf, false)]
-				s.Failure = fmt.Sprintf("panic in thread %s: %v\n%s", t.ID, r, buf)
+				var frames []string
+				for _, ln := range strings.Split(string(buf), "\n") {
+					if ln == "" || ln[0] == '\t' || strings.HasPrefix(ln, "goroutine ") || strings.HasPrefix(ln, "created by ") {
+						continue
+					}
+					if i := strings.LastIndexByte(ln, '('); i > 0 {
+						ln = ln[:i]
+					}
+					if strings.HasPrefix(ln, "runtime.") || strings.HasPrefix(ln, "panic") || strings.Contains(ln, "vsched.(*Sched).body") {
+						continue
+					}
+					frames = append(frames, ln)
+					if len(frames) == 4 {
+						break
+					}
+				}
+				s.Failure = fmt.Sprintf("panic in thread %s: %v [at %s]", t.ID, r, strings.Join(frames, " < "))
 			}
 		}
 		t.done = true
@@ -417,6 +435,7 @@ func WGAdd(p uintptr, d int) {
 	S.do(&op{k: KWGAdd, obj: p, n: d})
 }
 func WGWait(p uintptr) { S.do(&op{k: KWGWait, obj: p}) }
+
 var onceSeq uint64
 
 // OnceKey returns the identity stored in a Once value, giving it a fresh one
